@@ -42,7 +42,7 @@ def _nontrivial(t, spec, i):
 
 
 def execute(spec):
-    return pcheck.execute(spec, ID, monitors.c02, _nontrivial)
+    return pcheck.execute(spec, ID, monitors.c02, _nontrivial, first_model=True)
 
 
 shrink = pcheck.shrink
